@@ -1,6 +1,6 @@
 from vlib.e2_driver import run_e2
 
-TECHNIQUE = 'z3 over an AST interpretation of the real conflict/reserved-name checks (check_middlewares provided_by map as guarded multimap, BoundRoute src_provides_map, Application reserved test) against a declarative source-count oracle; models replayed through Application(...)'
+TECHNIQUE = 'z3 over an AST interpretation of the real conflict/reserved-name checks (check_middlewares provided_by map as guarded multimap, BoundRoute src_provides_map, Application reserved test) against a declarative source-count oracle; models replayed through Application(...); plus CrossHair/z3 case splits over source-position pairs around an embedding, render-factory products, non-unique and per-instance-hook middlewares executed on the real constructors'
 LEVEL = 'model_checking'
 ENGINE = 'E2'
 
